@@ -73,7 +73,7 @@ type astate struct {
 	buf  uint8
 }
 
-func newState() *astate { return &astate{vars: map[types.Object]aval{}, mc: 0, buf: bufEmpty} }
+func newState() *astate  { return &astate{vars: map[types.Object]aval{}, mc: 0, buf: bufEmpty} }
 func deadState() *astate { return &astate{dead: true, vars: map[types.Object]aval{}} }
 func (s *astate) consume(n int8) {
 	s.mc += n
@@ -145,7 +145,7 @@ type outcome struct {
 
 type absInt struct {
 	c       *Ctx
-	eof     bool // regime: every primitive source returns its end-of-input value (otherwise: unknown values)
+	eof     bool            // regime: every primitive source returns its end-of-input value (otherwise: unknown values)
 	scope   map[string]bool // package paths whose callees must be understood (reader packages)
 	depth   int
 	gaveUp  string
